@@ -9,25 +9,27 @@ import BlugeProofs.C07.HeapStep
 namespace Bluge.C07
 open Bluge.Search
 
-/-- the relation "this node, in this phase, enumerates `L`", by recursion on the depth bound.
+/-- the relation "this node, in this phase, enumerates `L`", by recursion on the depth bound
+(`LRel` is the relation of the leaf searchers).
 The composite cases name the children's lists; `fuel` must cover the node's loops. -/
-def RelD (fuel : Nat) : (d : Nat) → List Nat → NodeD d → Phase → Prop
-  | 0, L, l, ph => LeafRel L l ph
+def RelD {Λ : Type} (LRel : List Nat → Λ → Phase → Prop) (fuel : Nat) :
+    (d : Nat) → List Nat → NodeD Λ d → Phase → Prop
+  | 0, L, l, ph => LRel L l ph
   | d + 1, L, node, ph =>
     match node with
-    | .leaf l => LeafRel L l ph
+    | .leaf l => LRel L l ph
     | .conj s => ∃ (Ls : List (List Nat)) (B : Nat), (∀ x, x ∈ L ↔ ∀ Li ∈ Ls, x ∈ Li) ∧
-        B * (2 * Ls.length + 2) + Ls.length + 2 ≤ fuel ∧ ConjRel (RelD fuel d) L B Ls s ph
+        B * (2 * Ls.length + 2) + Ls.length + 2 ≤ fuel ∧ ConjRel (RelD LRel fuel d) L B Ls s ph
     | .disjS s => ∃ (Ls : List (List Nat)) (B min : Nat), (∀ x, x ∈ L ↔ max min 1 ≤ cnt Ls x) ∧
-        B + 1 ≤ fuel ∧ DisjRel (RelD fuel d) B min Ls s ph
+        B + 1 ≤ fuel ∧ DisjRel (RelD LRel fuel d) B min Ls s ph
     | .disjH s => ∃ (Ls : List (List Nat)) (B min : Nat), (∀ x, x ∈ L ↔ max min 1 ≤ cnt Ls x) ∧
-        (∀ Li ∈ Ls, ∀ y ∈ Li, y < B) ∧ B + 1 ≤ fuel ∧ HeapRel (RelD fuel d) B min Ls s ph
+        (∀ Li ∈ Ls, ∀ y ∈ Li, y < B) ∧ B + 1 ≤ fuel ∧ HeapRel (RelD LRel fuel d) B min Ls s ph
     | .bool s => ∃ (Lm Ls Ln : Option (List Nat)) (smin B : Nat), (∀ x, x ∈ L ↔ BMem Lm Ls Ln smin x) ∧
-        B + 1 ≤ fuel ∧ BoolRel (RelD fuel d) B Lm Ls smin Ln s ph
+        B + 1 ≤ fuel ∧ BoolRel (RelD LRel fuel d) B Lm Ls smin Ln s ph
     | .filt s => ∃ (Lk acc : List Nat) (B : Nat), (∀ x, x ∈ L ↔ x ∈ Lk ∧ acc.contains x = true) ∧
-        B + 1 ≤ fuel ∧ FiltRel (RelD fuel d) B Lk acc s ph
+        B + 1 ≤ fuel ∧ FiltRel (RelD LRel fuel d) B Lk acc s ph
     | .phrase s => ∃ (Lk ok : List Nat) (B : Nat), (∀ x, x ∈ L ↔ x ∈ Lk ∧ ok.contains x = true) ∧
-        B + 1 ≤ fuel ∧ PhraseRel (RelD fuel d) B Lk ok s ph
+        B + 1 ≤ fuel ∧ PhraseRel (RelD LRel fuel d) B Lk ok s ph
 
 /-- transport a contract through a constructor of `NodeF` -/
 theorem isIter_map {σ τ : Type} {step : Step σ} {Rel : σ → Phase → Prop} {L : List Nat}
@@ -62,64 +64,66 @@ theorem isIter_map {σ τ : Type} {step : Step σ} {Rel : σ → Phase → Prop}
   · intro p p' hph hle; subst hph
     exact (hrel _ _) (h.done_mono s p p' hr' hle)
 
-theorem relD_is_iter (fuel : Nat) : ∀ (d : Nat) (L : List Nat), IsIter (stepD fuel d) (RelD fuel d L) L := by
+theorem relD_is_iter {Λ : Type} {ls : Step Λ} {LRel : List Nat → Λ → Phase → Prop}
+    (hleaf : ∀ L, IsIter ls (LRel L) L) (fuel : Nat) :
+    ∀ (d : Nat) (L : List Nat), IsIter (stepD ls fuel d) (RelD LRel fuel d L) L := by
   intro d
   induction d with
-  | zero => intro L; exact leaf_is_iter_aux L
+  | zero => intro L; exact hleaf L
   | succ d ih =>
     intro L
     -- all five clauses of the contract for one node, by cases on the node
-    have key : ∀ (node : NodeD (d + 1)) (ph : Phase), RelD fuel (d + 1) L node ph →
-      (ph = .fresh → IsFirstGE L 0 (stepD fuel (d + 1) node .next).1 ∧
-        RelD fuel (d + 1) L (stepD fuel (d + 1) node .next).2 (after (stepD fuel (d + 1) node .next).1)) ∧
-      (∀ lb, ph = .at lb → IsFirstGE L lb (stepD fuel (d + 1) node .next).1 ∧
-        RelD fuel (d + 1) L (stepD fuel (d + 1) node .next).2 (after (stepD fuel (d + 1) node .next).1)) ∧
-      (∀ lb n, ph = .at lb → lb ≤ n → IsFirstGE L n (stepD fuel (d + 1) node (.adv n)).1 ∧
-        RelD fuel (d + 1) L (stepD fuel (d + 1) node (.adv n)).2 (after (stepD fuel (d + 1) node (.adv n)).1)) ∧
-      (∀ p c, ph = .done p → (∀ x, (stepD fuel (d + 1) node c).1 = some x →
+    have key : ∀ (node : NodeD Λ (d + 1)) (ph : Phase), RelD LRel fuel (d + 1) L node ph →
+      (ph = .fresh → IsFirstGE L 0 (stepD ls fuel (d + 1) node .next).1 ∧
+        RelD LRel fuel (d + 1) L (stepD ls fuel (d + 1) node .next).2 (after (stepD ls fuel (d + 1) node .next).1)) ∧
+      (∀ lb, ph = .at lb → IsFirstGE L lb (stepD ls fuel (d + 1) node .next).1 ∧
+        RelD LRel fuel (d + 1) L (stepD ls fuel (d + 1) node .next).2 (after (stepD ls fuel (d + 1) node .next).1)) ∧
+      (∀ lb n, ph = .at lb → lb ≤ n → IsFirstGE L n (stepD ls fuel (d + 1) node (.adv n)).1 ∧
+        RelD LRel fuel (d + 1) L (stepD ls fuel (d + 1) node (.adv n)).2 (after (stepD ls fuel (d + 1) node (.adv n)).1)) ∧
+      (∀ p c, ph = .done p → (∀ x, (stepD ls fuel (d + 1) node c).1 = some x →
           x ∈ L ∧ (c = .next → p ≤ x) ∧ (∀ n, c = .adv n → n ≤ x) ∧
-          RelD fuel (d + 1) L (stepD fuel (d + 1) node c).2 (.done (x + 1))) ∧
-        ((stepD fuel (d + 1) node c).1 = none → RelD fuel (d + 1) L (stepD fuel (d + 1) node c).2 (.done 0))) ∧
-      (∀ p p', ph = .done p → p' ≤ p → RelD fuel (d + 1) L node (.done p')) := by
+          RelD LRel fuel (d + 1) L (stepD ls fuel (d + 1) node c).2 (.done (x + 1))) ∧
+        ((stepD ls fuel (d + 1) node c).1 = none → RelD LRel fuel (d + 1) L (stepD ls fuel (d + 1) node c).2 (.done 0))) ∧
+      (∀ p p', ph = .done p → p' ≤ p → RelD LRel fuel (d + 1) L node (.done p')) := by
       intro node ph hr
       cases node with
       | leaf l =>
-        exact isIter_map (leaf_is_iter_aux L) NodeF.leaf (stepD fuel (d + 1)) (RelD fuel (d + 1) L)
+        exact isIter_map (hleaf L) NodeF.leaf (stepD ls fuel (d + 1)) (RelD LRel fuel (d + 1) L)
           (fun s c => rfl) (fun s ph h => h) l ph hr
       | conj s =>
         obtain ⟨Ls, B, hL, hf, hrel⟩ := hr
-        have h := conj_is_iter_aux (cs := stepD fuel d) (RelK := RelD fuel d) (B := B) (fun Li => ih Li) hL fuel hf
-        exact isIter_map h NodeF.conj (stepD fuel (d + 1)) (RelD fuel (d + 1) L)
+        have h := conj_is_iter_aux (cs := stepD ls fuel d) (RelK := RelD LRel fuel d) (B := B) (fun Li => ih Li) hL fuel hf
+        exact isIter_map h NodeF.conj (stepD ls fuel (d + 1)) (RelD LRel fuel (d + 1) L)
           (fun s c => rfl) (fun s ph hr' => ⟨Ls, B, hL, hf, hr'⟩) s ph hrel
       | disjS s =>
         obtain ⟨Ls, B, min, hL, hf, hrel⟩ := hr
-        have h := disjS_is_iter_aux (cs := stepD fuel d) (RelK := RelD fuel d) (B := B) (min := min)
+        have h := disjS_is_iter_aux (cs := stepD ls fuel d) (RelK := RelD LRel fuel d) (B := B) (min := min)
           (fun Li => ih Li) hL fuel hf
-        exact isIter_map h NodeF.disjS (stepD fuel (d + 1)) (RelD fuel (d + 1) L)
+        exact isIter_map h NodeF.disjS (stepD ls fuel (d + 1)) (RelD LRel fuel (d + 1) L)
           (fun s c => rfl) (fun s ph hr' => ⟨Ls, B, min, hL, hf, hr'⟩) s ph hrel
       | disjH s =>
         obtain ⟨Ls, B, min, hL, hB, hf, hrel⟩ := hr
-        have h := disjH_is_iter_aux (cs := stepD fuel d) (RelK := RelD fuel d) (B := B) (min := min)
+        have h := disjH_is_iter_aux (cs := stepD ls fuel d) (RelK := RelD LRel fuel d) (B := B) (min := min)
           (fun Li => ih Li) hL hB fuel hf
-        exact isIter_map h NodeF.disjH (stepD fuel (d + 1)) (RelD fuel (d + 1) L)
+        exact isIter_map h NodeF.disjH (stepD ls fuel (d + 1)) (RelD LRel fuel (d + 1) L)
           (fun s c => rfl) (fun s ph hr' => ⟨Ls, B, min, hL, hB, hf, hr'⟩) s ph hrel
       | bool s =>
         obtain ⟨Lm, Ls, Ln, smin, B, hL, hf, hrel⟩ := hr
-        have h := bool_is_iter_aux (cs := stepD fuel d) (RelK := RelD fuel d) (B := B) (Lm := Lm) (Ls := Ls) (Ln := Ln)
+        have h := bool_is_iter_aux (cs := stepD ls fuel d) (RelK := RelD LRel fuel d) (B := B) (Lm := Lm) (Ls := Ls) (Ln := Ln)
           (smin := smin) (fun Li => ih Li) hL fuel hf
-        exact isIter_map h NodeF.bool (stepD fuel (d + 1)) (RelD fuel (d + 1) L)
+        exact isIter_map h NodeF.bool (stepD ls fuel (d + 1)) (RelD LRel fuel (d + 1) L)
           (fun s c => rfl) (fun s ph hr' => ⟨Lm, Ls, Ln, smin, B, hL, hf, hr'⟩) s ph hrel
       | filt s =>
         obtain ⟨Lk, acc, B, hL, hf, hrel⟩ := hr
-        have h := filt_is_iter_aux (cs := stepD fuel d) (RelK := RelD fuel d) (B := B) (Lk := Lk) (acc := acc)
+        have h := filt_is_iter_aux (cs := stepD ls fuel d) (RelK := RelD LRel fuel d) (B := B) (Lk := Lk) (acc := acc)
           (fun Li => ih Li) hL fuel hf
-        exact isIter_map h NodeF.filt (stepD fuel (d + 1)) (RelD fuel (d + 1) L)
+        exact isIter_map h NodeF.filt (stepD ls fuel (d + 1)) (RelD LRel fuel (d + 1) L)
           (fun s c => rfl) (fun s ph hr' => ⟨Lk, acc, B, hL, hf, hr'⟩) s ph hrel
       | phrase s =>
         obtain ⟨Lk, ok, B, hL, hf, hrel⟩ := hr
-        have h := phrase_is_iter_aux (cs := stepD fuel d) (RelK := RelD fuel d) (B := B) (Lk := Lk) (ok := ok)
+        have h := phrase_is_iter_aux (cs := stepD ls fuel d) (RelK := RelD LRel fuel d) (B := B) (Lk := Lk) (ok := ok)
           (fun Li => ih Li) hL fuel hf
-        exact isIter_map h NodeF.phrase (stepD fuel (d + 1)) (RelD fuel (d + 1) L)
+        exact isIter_map h NodeF.phrase (stepD ls fuel (d + 1)) (RelD LRel fuel (d + 1) L)
           (fun s c => rfl) (fun s ph hr' => ⟨Lk, ok, B, hL, hf, hr'⟩) s ph hrel
     constructor
     · intro s h; exact (key s .fresh h).1 rfl
